@@ -221,21 +221,22 @@ type PreludeRun struct {
 }
 
 type ReplayFile struct {
-	Prelude     []PreludeRun    `json:"prelude,omitempty"`
-	Tier        string          `json:"tier"`
-	Property    string          `json:"property"`
-	Engine      string          `json:"engine"`
-	Oracle      string          `json:"oracle"`
-	Signature   string          `json:"signature"`
-	Seed        uint64          `json:"seed"`
-	Tape        []uint64        `json:"tape"`
-	TapeLabels  []string        `json:"tape_labels"`
-	Trace       []string        `json:"trace"`
-	Observation map[string]any  `json:"observation"`
-	Go          string          `json:"go"`
-	OrigTapeLen int             `json:"original_tape_len"`
-	ShrinkEvals int             `json:"shrink_evals"`
-	Violation   *core.Violation `json:"violation"`
+	Prelude         []PreludeRun    `json:"prelude,omitempty"`
+	Tier            string          `json:"tier"`
+	Property        string          `json:"property"`
+	Engine          string          `json:"engine"`
+	Oracle          string          `json:"oracle"`
+	Signature       string          `json:"signature"`
+	Seed            uint64          `json:"seed"`
+	Tape            []uint64        `json:"tape"`
+	TapeLabels      []string        `json:"tape_labels"`
+	Trace           []string        `json:"trace"`
+	Observation     map[string]any  `json:"observation"`
+	Go              string          `json:"go"`
+	OrigTapeLen     int             `json:"original_tape_len"`
+	ShrinkEvals     int             `json:"shrink_evals"`
+	Reproducibility string          `json:"reproducibility,omitempty"`
+	Violation       *core.Violation `json:"violation"`
 }
 
 func verifDir() string {
@@ -408,6 +409,8 @@ func driver(args []string) int {
 				}
 			}
 			historyDependent := false
+			irreproducible := false
+			_ = irreproducible
 			useHistory := func() int {
 				// not a function of its own tape: the violation depends on state left behind by
 				// earlier runs of the same worker process. Rebuild that history and minimise it.
@@ -434,6 +437,23 @@ func driver(args []string) int {
 					return strings.Contains(string(ob), "REPRODUCED")
 				}
 				if !tryPrelude(prelude) {
+					if f.Viol.Oracle == "race" || p.Engine == "conc" {
+						// the race detector saw it, but the change under test is itself non-deterministic
+						// (sync.Pool, real timing): keep the original tape and say how often it reproduces
+						k := 0
+						for a := 0; a < 6; a++ {
+							if tryPrelude(nil) {
+								k++
+							}
+						}
+						rf.Tape = f.Tape
+						rf.Violation = f.Viol
+						rf.Observation = f.Viol.Observation
+						rf.Reproducibility = fmt.Sprintf("%d of 6 fresh-process attempts (the library change is not a function of the schedule alone)", k)
+						historyDependent = true
+						irreproducible = true
+						return 0
+					}
 					fmt.Fprintf(os.Stderr, "HARNESS-ERROR failure does not replay from its tape nor from its process history: %s (seed %d)\n", sig, f.Seed)
 					return 2
 				}
@@ -504,7 +524,9 @@ func driver(args []string) int {
 					cmd.Env = append(os.Environ(), "GOMAXPROCS=1")
 					ob, _ := cmd.CombinedOutput()
 					last = string(ob)
-					if strings.Contains(last, "REPRODUCED") {
+					// a replay that ends in another violation of the same property (e.g. the race
+					// detector names a different pair of accesses first) still is a violation
+					if strings.Contains(last, "REPRODUCED") || strings.Contains(last, "DIFFERENT violation") {
 						return true, last
 					}
 				}
@@ -521,7 +543,7 @@ func driver(args []string) int {
 				os.WriteFile(path, rb, 0o644)
 				ok, ob = fresh()
 			}
-			if !ok {
+			if !ok && rf.Reproducibility == "" {
 				fmt.Fprintf(os.Stderr, "HARNESS-ERROR minimised replay did not reproduce in a fresh process: %s\n%s\n", path, trimStack(ob))
 				return 2
 			}
